@@ -126,105 +126,146 @@ theorem length_erase_open {s : St} {i : Nat} (hlt : i < s.nsubs) (hs : (s.subs i
   omega
 
 /-- leaving without reset: the generation stays active -/
-theorem inv_closeState {s : St} {c : Nat} {tr : List Ev} {i g : Nat} (hi : Inv s) (hc : c ≠ 0) (hlt : i < s.nsubs)
-    (hsub : s.subject = some g) (ha : GenActive s g) (hs : (s.subs i).status = 0) :
-    Inv (closeState c tr i g s) ∧ GenActive (closeState c tr i g s) g := by
+theorem inv_closeState {P : Pend} {s : St} {c : Nat} {tr : List Ev} {i g : Nat} (hi : Inv P s) (hc : c ≠ 0) (hlt : i < s.nsubs)
+    (hsub : s.subject = some g) (ha : GenActive P s g) (hs : (s.subs i).status = 0) (hna : P.ua ≠ some i) :
+    Inv P (closeState c tr i g s) ∧ GenActive P (closeState c tr i g s) g := by
   have hos := openSubs_closeState (s := s) (c := c) (tr := tr) (i := i) (g := g) hc
   have hlen := length_erase_open hlt hs
-  have hact : GenActive (closeState c tr i g s) g := by
+  have hother : ∀ k, k ≠ i → (closeState c tr i g s).subs k = s.subs k := by
+    intro k hk; simp [closeState, hk]
+  have hgother : ∀ k, k ≠ g → (closeState c tr i g s).gens k = s.gens k := by
+    intro k hk; simp [closeState, hk]
+  have hact : GenActive P (closeState c tr i g s) g := by
     constructor
-    any_goals (simp [closeState]; first | exact ha.pStatus | exact ha.pDone | exact ha.pFin | exact ha.upSub | exact ha.upTorn | exact ha.ssFins | exact ha.ssDone | exact ha.isOpen | exact ha.flagE | exact ha.flagC)
-    · rw [hos]; simp [closeState, ha.obs]
-    · intro k hk hks
+    case obs => rw [hos]; simp [closeState, ha.obs]
+    case fin => intro hne; simp [closeState]; exact ha.fin hne
+    case unf =>
+      intro he
+      obtain ⟨h1, h2, A, hA, hltA, hu⟩ := ha.unf he
+      have hAi : A ≠ i := fun h => hna (by rw [← h]; exact hA)
+      exact ⟨by simp [closeState]; exact h1, by simp [closeState]; exact h2, A, hA, hltA, by rw [hother A hAi]; exact hu⟩
+    case subs =>
+      intro k hk hks hne
       by_cases hki : k = i
       · subst hki; simp [closeState, hc] at hks
-      · have : (closeState c tr i g s).subs k = s.subs k := by simp [closeState, hki]
-        rw [this] at hks ⊢
-        exact ha.subs k hk hks
+      · rw [hother k hki] at hks ⊢
+        exact ha.subs k hk hks hne
+    all_goals (simp [closeState]; first | exact ha.pStatus | exact ha.pDone | exact ha.upSub | exact ha.upTorn | exact ha.ssDone | exact ha.isOpen | exact ha.flagE | exact ha.flagC)
   refine ⟨?_, hact⟩
   constructor
-  · exact hi.shared
-  · intro k hk hks
+  case shared => exact hi.shared
+  case closed =>
+    intro k hk hks
     by_cases hki : k = i
     · subst hki; constructor <;> simp [closeState, hc]
-    · have : (closeState c tr i g s).subs k = s.subs k := by simp [closeState, hki]
-      rw [this] at hks ⊢
+    · rw [hother k hki] at hks ⊢
       exact hi.closed k hk hks
-  · intro k hk hne
+  case stale =>
+    intro k hk hne hu
     have hkg : k ≠ g := fun h => hne (by rw [h]; exact hsub)
-    have : (closeState c tr i g s).gens k = s.gens k := by simp [closeState, hkg]
-    rw [this]
-    exact hi.stale k hk hne
-  · rw [hos]
+    rw [hgother k hkg]
+    exact hi.stale k hk hne hu
+  case ended =>
+    intro k hk hne hu
+    have hkg : k ≠ g := fun h => hne (by rw [h]; exact hsub)
+    rw [hgother k hkg]
+    exact hi.ended k hk hne hu
+  case count =>
+    rw [hos]
     have := hi.count
     simp only [closeState]
     omega
-  · intro hn
+  case idle =>
+    intro hn
     simp [closeState, hsub] at hn
-  · intro g' hg'
+  case cur =>
+    intro g' hg'
     have : g' = g := by
       have : (closeState c tr i g s).subject = s.subject := rfl
       rw [this, hsub] at hg'
       exact (Option.some.inj hg').symm
     subst this
     exact ⟨(hi.cur g' hsub).1, Or.inl hact⟩
+  case ugb => exact hi.ugb
+  case uab => exact hi.uab
 
 /-- the last one leaves and `ResetOnRefCountZero` fires: upstream released -/
-theorem inv_resetState {s : St} {g : Nat} (hi : Inv s) (hsub : s.subject = some g) (ha : GenActive s g)
-    (hno : openSubs s = []) : Inv (resetState g s) := by
+theorem inv_resetState {P : Pend} {s : St} {g : Nat} (hi : Inv P s) (hsub : s.subject = some g) (ha : GenActive P s g)
+    (hfin : P.ug ≠ some g) (hno : openSubs s = []) : Inv P (resetState g s) := by
   have hos : openSubs (resetState g s) = openSubs s := openSubs_congr rfl (fun i _ => Iff.rfl)
+  have hgother : ∀ k, k ≠ g → (resetState g s).gens k = s.gens k := by
+    intro k hk; simp [resetState, hk]
+  have hua : P.ua = none := by
+    cases h : P.ua with
+    | none => rfl
+    | some A => exact absurd ((hi.uab A h).1.trans hsub) hfin
   constructor
-  · rfl
-  · exact hi.closed
-  · intro k hk _
+  case shared => rfl
+  case closed => exact hi.closed
+  case stale =>
+    intro k hk _ hu
     by_cases hkg : k = g
     · subst hkg
       constructor <;> simp [resetState]
       · exact ha.upSub
       · rw [ha.obs, hno]
-    · have : (resetState g s).gens k = s.gens k := by simp [resetState, hkg]
-      rw [this]
-      exact hi.stale k hk (fun h => hkg (by rw [hsub] at h; exact (Option.some.inj h).symm))
-  · rw [hos]; exact hi.count
-  · intro _
+    · rw [hgother k hkg]
+      exact hi.stale k hk (fun h => hkg (by rw [hsub] at h; exact (Option.some.inj h).symm)) hu
+  case ended =>
+    intro k hk _ hu
+    have hkg : k ≠ g := fun h => hfin (by rw [← h]; exact hu)
+    rw [hgother k hkg]
+    exact hi.ended k hk (fun h => hkg (by rw [hsub] at h; exact (Option.some.inj h).symm)) hu
+  case count => rw [hos]; exact hi.count
+  case idle =>
+    intro _
     exact ⟨ha.flagE, ha.flagC, by rw [hos]; exact hno⟩
-  · intro g' hg'
+  case cur =>
+    intro g' hg'
     simp [resetState] at hg'
+  case ugb => exact hi.ugb
+  case uab => intro A hA; rw [hua] at hA; cases hA
 
 theorem zeroReset_noop {fl : Flags} {g : Nat} {s : St} (h : (fl.onZero && s.refCount == 0 && !s.flagE && !s.flagC) = false) :
     zeroReset fl g s = s := by
   simp [zeroReset, h]
 
-theorem inv_dUnsubscribe (fl : Flags) {s : St} (hi : Inv s) (i : Nat) (hlt : i < s.nsubs) :
-    Inv (dUnsubscribe fl i s) := by
+/-- an open subscriber is attached to the live current generation -/
+theorem open_active {P : Pend} {s : St} (hi : Inv P s) {i : Nat} (hlt : i < s.nsubs) (hs : (s.subs i).status = 0) :
+    ∃ g, s.subject = some g ∧ GenActive P s g := by
+  have hmem : i ∈ openSubs s := mem_openSubs.mpr ⟨hlt, hs⟩
+  cases hsub : s.subject with
+  | none => rw [(hi.idle hsub).2.2] at hmem; cases hmem
+  | some g =>
+    rcases (hi.cur g hsub).2 with ha | hl
+    · exact ⟨g, rfl, ha⟩
+    · rw [hl.noOpen] at hmem; cases hmem
+
+theorem inv_dUnsubscribe (fl : Flags) {P : Pend} {s : St} (hi : Inv P s) (i : Nat) (hlt : i < s.nsubs) (hna : P.ua ≠ some i) :
+    Inv P (dUnsubscribe fl i s) := by
   by_cases hs : (s.subs i).status = 0
-  · have hmem : i ∈ openSubs s := mem_openSubs.mpr ⟨hlt, hs⟩
-    cases hsub : s.subject with
-    | none =>
-      have := (hi.idle hsub).2.2
-      rw [this] at hmem
-      cases hmem
-    | some g =>
-      obtain ⟨_, hmode⟩ := hi.cur g hsub
-      rcases hmode with ha | hl
-      · have ho := ha.subs i hlt hs
-        rw [dUnsubscribe_open fl ho]
-        obtain ⟨hi', ha'⟩ := inv_closeState (c := 2) (tr := (s.subs i).trace) hi (by decide) hlt hsub ha hs
-        unfold zeroReset
-        split
-        next hcond =>
-          simp at hcond
-          have hz := hcond.1.1.2
-          have hcount := hi'.count
-          have hno : openSubs (closeState 2 (s.subs i).trace i g s) = [] := by
-            apply List.eq_nil_of_length_eq_zero
-            omega
-          rw [reset_active ha'.pStatus ha'.pDone ha'.pFin ha'.ssFins ha'.ssDone (by exact hsub)
-            (by have := hi'.shared; rw [this]; exact hsub)]
-          exact inv_resetState hi' hsub ha' hno
-        next => exact hi'
-      · rw [hl.noOpen] at hmem
-        cases hmem
+  · obtain ⟨g, hsub, ha⟩ := open_active hi hlt hs
+    have ho := ha.subs i hlt hs hna
+    rw [dUnsubscribe_open fl ho]
+    obtain ⟨hi', ha'⟩ := inv_closeState (c := 2) (tr := (s.subs i).trace) hi (by decide) hlt hsub ha hs hna
+    unfold zeroReset
+    split
+    next hcond =>
+      simp at hcond
+      have hz := hcond.1.1.2
+      have hcount := hi'.count
+      have hno : openSubs (closeState 2 (s.subs i).trace i g s) = [] := by
+        apply List.eq_nil_of_length_eq_zero
+        omega
+      have hfin : P.ug ≠ some g := by
+        intro he
+        obtain ⟨_, _, A, _, hltA, hu⟩ := ha'.unf he
+        have : A ∈ openSubs (closeState 2 (s.subs i).trace i g s) := mem_openSubs.mpr ⟨hltA, hu.status⟩
+        rw [hno] at this; cases this
+      rw [reset_active ha'.pStatus ha'.pDone (ha'.fin hfin).1 (ha'.fin hfin).2 ha'.ssDone (by exact hsub)
+        (by have := hi'.shared; rw [this]; exact hsub)]
+      exact inv_resetState hi' hsub ha' hfin hno
+    next => exact hi'
   · simp [dUnsubscribe, hs]
     exact hi
 
@@ -237,20 +278,47 @@ def termResetState (g : Nat) (s : St) : St :=
            gens := fun k => if k = g then { (s.gens g) with ssDone := true, ssFins := [] } else s.gens k }
 
 theorem reset_terminated {s : St} {g : Nat} (h1 : (s.gens g).pStatus ≠ 0)
-    (h4 : (s.gens g).ssFins = [g]) (h5 : (s.gens g).ssDone = false)
+    (h4 : (s.gens g).ssFins = [g] ∨ (s.gens g).ssFins = []) (h5 : (s.gens g).ssDone = false)
     (h6 : s.subject = some g) (h7 : s.sourceSubscription = some g) : reset g s = termResetState g s := by
-  simp [reset, clearShared, ssUnsub, h5, h4, pUnsubscribe, h1, h6, h7, termResetState]
-  funext k
-  split <;> simp_all
+  rcases h4 with h4 | h4 <;>
+    (simp [reset, clearShared, ssUnsub, h5, h4, pUnsubscribe, h1, h6, h7, termResetState]
+     funext k
+     split <;> simp_all)
 
-/-- what holds while the subject of generation `g` broadcasts a terminal -/
-structure TInv (g : Nat) (s : St) : Prop where
+/-- the pending creator (Share's teardown not registered) is closed: like `closeState`, but its
+    reference is not given back -/
+def closeStateU (c : Nat) (tr : List Ev) (i g : Nat) (s : St) : St :=
+  { closeState c tr i g s with refCount := s.refCount }
+
+theorem dTerm_openU {s : St} {i g : Nat} (fl : Flags) (t : Ev) (ht : t.isTerminal = true) (ho : SubOpenU g (s.subs i)) :
+    dTerm fl i t s = closeStateU t.code ((s.subs i).trace ++ [t]) i g s := by
+  have hc : t.code ≠ 0 := by cases t <;> simp [Ev.code] at *
+  simp [dTerm, dDeliver, ho.status, dSubnUnsub, ho.done, ho.delFin, ho.tearFin, runDel, runTear, closeStateU, closeState, hc]
+  refine ⟨?_, ?_⟩ <;> funext k <;> split <;> simp_all
+
+theorem openSubs_closeStateU {s : St} {c : Nat} {tr : List Ev} {i g : Nat} (hc : c ≠ 0) :
+    openSubs (closeStateU c tr i g s) = (openSubs s).erase i := by
+  apply openSubs_close (s := s) (s' := closeStateU c tr i g s) (i := i) rfl
+  · simp [closeStateU, closeState, hc]
+  · intro k hk
+    simp [closeStateU, closeState, hk]
+
+/-- references held by the pending creator `xa` once it has been closed -/
+def pendClosed (xa : Option Nat) (s : St) : Nat :=
+  match xa with
+  | some A => if (s.subs A).status = 0 then 0 else 1
+  | none => 0
+
+/-- what holds while the subject of generation `g` broadcasts a terminal; `xa` = the pending creator
+    of `g` (registered, its teardown not), `c` = references pending from elsewhere -/
+structure TInv (xa : Option Nat) (c : Nat) (g : Nat) (s : St) : Prop where
   shared : s.sourceSubscription = s.subject
   quiet : (s.flagE = true ∨ s.flagC = true) ∨ ((s.gens g).ssDone = true ∧ s.subject = none)
   closed : ∀ i, i < s.nsubs → (s.subs i).status ≠ 0 → SubClosed (s.subs i)
-  opened : ∀ i, i < s.nsubs → (s.subs i).status = 0 → SubOpen g (s.subs i)
+  opened : ∀ i, i < s.nsubs → (s.subs i).status = 0 → xa ≠ some i → SubOpen g (s.subs i)
+  openedU : ∀ A, xa = some A → A < s.nsubs ∧ ((s.subs A).status = 0 → SubOpenU g (s.subs A))
   obs : (s.gens g).subj.obs = openSubs s
-  count : s.refCount = (openSubs s).length
+  count : s.refCount = ((openSubs s).length + c + pendClosed xa s : Nat)
 
 /-- what a terminal delivery leaves alone -/
 structure TFrame (g : Nat) (s s' : St) : Prop where
@@ -304,57 +372,115 @@ theorem zeroReset_quiet {fl : Flags} {g : Nat} {s : St} (hsh : s.sourceSubscript
     · exact reset_stale hd (by simp [hn]) (by simp [hsh, hn])
   next => rfl
 
-theorem dTerm_tinv {fl : Flags} {g : Nat} {s : St} (t : Ev) (ht : t.isTerminal = true) (h : TInv g s)
+theorem dTerm_tinv {fl : Flags} {xa : Option Nat} {c : Nat} {g : Nat} {s : St} (t : Ev) (ht : t.isTerminal = true) (h : TInv xa c g s)
     (i : Nat) (hlt : i < s.nsubs) :
-    TInv g (dTerm fl i t s) ∧ TFrame g s (dTerm fl i t s) ∧ ((dTerm fl i t s).subs i).status ≠ 0 := by
+    TInv xa c g (dTerm fl i t s) ∧ TFrame g s (dTerm fl i t s) ∧ ((dTerm fl i t s).subs i).status ≠ 0 := by
   have hc : t.code ≠ 0 := by cases t <;> simp [Ev.code, Ev.isTerminal] at *
   by_cases hs : (s.subs i).status = 0
-  · have ho := h.opened i hlt hs
-    rw [dTerm_open fl t ht ho]
-    have hq : zeroReset fl g (closeState t.code ((s.subs i).trace ++ [t]) i g s) = closeState t.code ((s.subs i).trace ++ [t]) i g s := by
-      apply zeroReset_quiet
-      · exact h.shared
-      · rcases h.quiet with hf | ⟨hd, hn⟩
-        · exact Or.inl hf
-        · exact Or.inr ⟨by simp [closeState, hd], hn⟩
-    rw [hq]
-    have hos := openSubs_closeState (s := s) (c := t.code) (tr := (s.subs i).trace ++ [t]) (i := i) (g := g) hc
-    have hlen := length_erase_open hlt hs
-    refine ⟨?_, ?_, ?_⟩
-    · constructor
-      · exact h.shared
-      · rcases h.quiet with hf | ⟨hd, hn⟩
-        · exact Or.inl hf
-        · exact Or.inr ⟨by simp [closeState, hd], hn⟩
-      · intro k hk hks
-        by_cases hki : k = i
-        · subst hki; constructor <;> simp [closeState, hc]
-        · have : (closeState t.code ((s.subs i).trace ++ [t]) i g s).subs k = s.subs k := by simp [closeState, hki]
-          rw [this] at hks ⊢
-          exact h.closed k hk hks
-      · intro k hk hks
-        by_cases hki : k = i
-        · subst hki; simp [closeState, hc] at hks
-        · have : (closeState t.code ((s.subs i).trace ++ [t]) i g s).subs k = s.subs k := by simp [closeState, hki]
-          rw [this] at hks ⊢
-          exact h.opened k hk hks
-      · rw [hos]; simp [closeState, h.obs]
-      · rw [hos]
-        have := h.count
-        simp only [closeState]
-        omega
-    · constructor <;> intros <;> simp [closeState] <;> (try split) <;> simp_all
-    · simp [closeState, hc]
+  · have hlen := length_erase_open hlt hs
+    by_cases hxa : xa = some i
+    · -- the pending creator: closed without giving its reference back
+      have ho := (h.openedU i hxa).2 hs
+      rw [dTerm_openU fl t ht ho]
+      have hos := openSubs_closeStateU (s := s) (c := t.code) (tr := (s.subs i).trace ++ [t]) (i := i) (g := g) hc
+      have hother : ∀ k, k ≠ i → (closeStateU t.code ((s.subs i).trace ++ [t]) i g s).subs k = s.subs k := by
+        intro k hk; simp [closeStateU, closeState, hk]
+      have hp0 : pendClosed xa s = 0 := by simp [pendClosed, hxa, hs]
+      have hp1 : pendClosed xa (closeStateU t.code ((s.subs i).trace ++ [t]) i g s) = 1 := by
+        simp [pendClosed, hxa, closeStateU, closeState, hc]
+      refine ⟨?_, ?_, ?_⟩
+      · constructor
+        case shared => exact h.shared
+        case quiet =>
+          rcases h.quiet with hf | ⟨hd, hn⟩
+          · exact Or.inl hf
+          · exact Or.inr ⟨by simp [closeStateU, closeState, hd], hn⟩
+        case closed =>
+          intro k hk hks
+          by_cases hki : k = i
+          · subst hki; constructor <;> simp [closeStateU, closeState, hc]
+          · rw [hother k hki] at hks ⊢
+            exact h.closed k hk hks
+        case opened =>
+          intro k hk hks hne
+          by_cases hki : k = i
+          · subst hki; simp [closeStateU, closeState, hc] at hks
+          · rw [hother k hki] at hks ⊢
+            exact h.opened k hk hks hne
+        case openedU =>
+          intro A hA
+          have hAi : A = i := by rw [hxa] at hA; exact (Option.some.inj hA).symm
+          subst hAi
+          exact ⟨hlt, fun h0 => by simp [closeStateU, closeState, hc] at h0⟩
+        case obs => rw [hos]; simp [closeStateU, closeState, h.obs]
+        case count =>
+          rw [hos, hp1]
+          have := h.count
+          rw [hp0] at this
+          simp only [closeStateU, closeState]
+          omega
+      · constructor <;> intros <;> simp [closeStateU, closeState] <;> (try split) <;> simp_all
+      · simp [closeStateU, closeState, hc]
+    · have ho := h.opened i hlt hs hxa
+      rw [dTerm_open fl t ht ho]
+      have hq : zeroReset fl g (closeState t.code ((s.subs i).trace ++ [t]) i g s) = closeState t.code ((s.subs i).trace ++ [t]) i g s := by
+        apply zeroReset_quiet
+        · exact h.shared
+        · rcases h.quiet with hf | ⟨hd, hn⟩
+          · exact Or.inl hf
+          · exact Or.inr ⟨by simp [closeState, hd], hn⟩
+      rw [hq]
+      have hos := openSubs_closeState (s := s) (c := t.code) (tr := (s.subs i).trace ++ [t]) (i := i) (g := g) hc
+      have hother : ∀ k, k ≠ i → (closeState t.code ((s.subs i).trace ++ [t]) i g s).subs k = s.subs k := by
+        intro k hk; simp [closeState, hk]
+      have hp : pendClosed xa (closeState t.code ((s.subs i).trace ++ [t]) i g s) = pendClosed xa s := by
+        cases hx : xa with
+        | none => rfl
+        | some A =>
+          have hAi : A ≠ i := fun hh => hxa (by rw [hx, hh])
+          simp [pendClosed, hother A hAi]
+      refine ⟨?_, ?_, ?_⟩
+      · constructor
+        case shared => exact h.shared
+        case quiet =>
+          rcases h.quiet with hf | ⟨hd, hn⟩
+          · exact Or.inl hf
+          · exact Or.inr ⟨by simp [closeState, hd], hn⟩
+        case closed =>
+          intro k hk hks
+          by_cases hki : k = i
+          · subst hki; constructor <;> simp [closeState, hc]
+          · rw [hother k hki] at hks ⊢
+            exact h.closed k hk hks
+        case opened =>
+          intro k hk hks hne
+          by_cases hki : k = i
+          · subst hki; simp [closeState, hc] at hks
+          · rw [hother k hki] at hks ⊢
+            exact h.opened k hk hks hne
+        case openedU =>
+          intro A hA
+          have hAi : A ≠ i := fun hh => hxa (by rw [hA, hh])
+          rw [hother A hAi]
+          exact h.openedU A hA
+        case obs => rw [hos]; simp [closeState, h.obs]
+        case count =>
+          rw [hos, hp]
+          have := h.count
+          simp only [closeState]
+          omega
+      · constructor <;> intros <;> simp [closeState] <;> (try split) <;> simp_all
+      · simp [closeState, hc]
   · have hcl := h.closed i hlt hs
     rw [dTerm_closed fl t hcl]
     refine ⟨?_, ?_, ?_⟩
-    · exact ⟨h.shared, h.quiet, h.closed, h.opened, h.obs, h.count⟩
+    · exact ⟨h.shared, h.quiet, h.closed, h.opened, h.openedU, h.obs, h.count⟩
     · constructor <;> intros <;> first | rfl | assumption
     · exact hs
 
-theorem bcast_tinv {fl : Flags} {g : Nat} (t : Ev) (ht : t.isTerminal = true) (l : List Nat) {s : St} (h : TInv g s)
-    (hl : ∀ i, i ∈ l → i < s.nsubs) :
-    TInv g (l.foldl (fun s i => dTerm fl i t s) s) ∧ TFrame g s (l.foldl (fun s i => dTerm fl i t s) s) ∧
+theorem bcast_tinv {fl : Flags} {xa : Option Nat} {c : Nat} {g : Nat} (t : Ev) (ht : t.isTerminal = true) (l : List Nat) {s : St}
+    (h : TInv xa c g s) (hl : ∀ i, i ∈ l → i < s.nsubs) :
+    TInv xa c g (l.foldl (fun s i => dTerm fl i t s) s) ∧ TFrame g s (l.foldl (fun s i => dTerm fl i t s) s) ∧
       ∀ i, i ∈ l → ((l.foldl (fun s i => dTerm fl i t s) s).subs i).status ≠ 0 := by
   induction l generalizing s with
   | nil => exact ⟨h, TFrame.refl g s, fun _ hi => by cases hi⟩
@@ -400,22 +526,30 @@ theorem pDecide_cases' (fl : Flags) (g : Nat) (t : Ev) (ht : t.isTerminal = true
     | error e => exact Or.inr (Or.inl ⟨rfl, by simp⟩)
     | complete => exact Or.inr (Or.inr ⟨rfl, by simp⟩)
 
+/-- the pending creator of the live generation `g`, if `g` is the pending generation -/
+def Pend.xa (P : Pend) (g : Nat) : Option Nat := if P.ug = some g then P.ua else none
+
+/-- the pending state after a terminal on the live generation `g` -/
+def Pend.afterTerm (P : Pend) (g : Nat) : Pend := if P.ug = some g then P.drop else P
+
+@[simp] theorem Pend.afterTerm_idle (g : Nat) : Pend.idle.afterTerm g = Pend.idle := rfl
+@[simp] theorem Pend.xa_idle (g : Nat) : Pend.idle.xa g = none := rfl
+
 /-- the state just before the broadcast: proxy closed, reset-or-latch decided, subject terminated -/
-theorem tinv_start {s : St} {g : Nat} (t : Ev) (_ht : t.isTerminal = true) (hi : Inv s)
-    (hsub : s.subject = some g) (ha : GenActive s g) (s2 : St)
+theorem tinv_start {P : Pend} {s : St} {g : Nat} (t : Ev) (_ht : t.isTerminal = true) (hi : Inv P s)
+    (hsub : s.subject = some g) (ha : GenActive P s g) (s2 : St)
     (h2 : s2 = termResetState g (s.modGen g fun x => { x with pStatus := t.code }) ∨
           s2 = { (s.modGen g fun x => { x with pStatus := t.code }) with flagE := true } ∨
           s2 = { (s.modGen g fun x => { x with pStatus := t.code }) with flagC := true })
     (s3 : St) (h3 : s3 = s2.modGen g fun x => { x with subj := { x.subj with status := Status.ofTerminal t } }) :
-    TInv g s3 ∧ s3.ngens = s.ngens ∧ s3.nsubs = s.nsubs ∧
+    TInv (P.xa g) P.c g s3 ∧ s3.ngens = s.ngens ∧ s3.nsubs = s.nsubs ∧
     (∀ k, k ≠ g → s3.gens k = s.gens k) ∧ (s3.gens g).pStatus = t.code ∧ (s3.gens g).pDone = false ∧
-    (s3.gens g).pFin = true ∧ (s3.gens g).upSub = true ∧ (s3.gens g).upTorn = false ∧
+    (s3.gens g).pFin = (s.gens g).pFin ∧ (s3.gens g).upSub = true ∧ (s3.gens g).upTorn = false ∧
     (s3.gens g).subj.status = Status.ofTerminal t ∧
     ((s3.subject = none ∧ s3.flagE = false ∧ s3.flagC = false ∧ (s3.gens g).ssDone = true ∧ (s3.gens g).ssFins = []) ∨
-     (s3.subject = some g ∧ (s3.flagE = true ∨ s3.flagC = true) ∧ (s3.gens g).ssDone = false ∧ (s3.gens g).ssFins = [g])) := by
+     (s3.subject = some g ∧ (s3.flagE = true ∨ s3.flagC = true) ∧ (s3.gens g).ssDone = false ∧ (s3.gens g).ssFins = (s.gens g).ssFins)) := by
   have hss : s.sourceSubscription = some g := by rw [hi.shared]; exact hsub
   have hobs := ha.obs
-  have hopened := ha.subs
   have hclosed := hi.closed
   have hcount := hi.count
   have hos : openSubs s3 = openSubs s := by
@@ -423,34 +557,66 @@ theorem tinv_start {s : St} {g : Nat} (t : Ev) (_ht : t.isTerminal = true) (hi :
   have hsubs : s3.subs = s.subs := by rcases h2 with k | k | k <;> rw [h3, k] <;> rfl
   have hns : s3.nsubs = s.nsubs := by rcases h2 with k | k | k <;> rw [h3, k] <;> rfl
   have hrc : s3.refCount = s.refCount := by rcases h2 with k | k | k <;> rw [h3, k] <;> rfl
+  -- the pending creator, if this is the pending generation, is open: nothing pending-closed yet
+  have hpend : pendClosed (P.xa g) s3 = 0 := by
+    unfold Pend.xa
+    split
+    next he =>
+      obtain ⟨_, _, A, hA, _, hu⟩ := ha.unf he
+      simp [pendClosed, hA, hsubs, hu.status]
+    next => rfl
   refine ⟨?_, ?_⟩
   · constructor
-    · rcases h2 with k | k | k <;> rw [h3, k] <;> simp [termResetState, hss, hsub]
-    · rcases h2 with k | k | k <;> rw [h3, k] <;> simp [termResetState]
-    · intro i hlt hs
+    case shared => rcases h2 with k | k | k <;> rw [h3, k] <;> simp [termResetState, hss, hsub]
+    case quiet => rcases h2 with k | k | k <;> rw [h3, k] <;> simp [termResetState]
+    case closed =>
+      intro i hlt hs
       rw [hsubs] at hs ⊢
       exact hclosed i (by rw [hns] at hlt; exact hlt) hs
-    · intro i hlt hs
+    case opened =>
+      intro i hlt hs hne
       rw [hsubs] at hs ⊢
-      exact hopened i (by rw [hns] at hlt; exact hlt) hs
-    · rw [hos, ← hobs]
+      apply ha.subs i (by rw [hns] at hlt; exact hlt) hs
+      intro hua
+      by_cases he : P.ug = some g
+      · exact hne (by simp [Pend.xa, he, hua])
+      · exact he (by rw [(hi.uab i hua).1]; exact hsub)
+    case openedU =>
+      intro A hA
+      unfold Pend.xa at hA
+      split at hA
+      next he =>
+        obtain ⟨_, _, A', hA', hltA, hu⟩ := ha.unf he
+        rw [hA] at hA'
+        have : A = A' := Option.some.inj hA'
+        subst this
+        rw [hsubs, hns]
+        exact ⟨hltA, fun _ => hu⟩
+      next => cases hA
+    case obs =>
+      rw [hos, ← hobs]
       rcases h2 with k | k | k <;> rw [h3, k] <;> simp [termResetState]
-    · rw [hos, hrc]; exact hcount
+    case count => rw [hos, hrc, hpend]; exact hcount
   · rcases h2 with k | k | k <;> rw [h3, k] <;>
-      simp [termResetState, ha.pDone, ha.pFin, ha.upSub, ha.upTorn, ha.flagE, ha.flagC, ha.ssDone, ha.ssFins, hsub] <;>
+      simp [termResetState, ha.pDone, ha.upSub, ha.upTorn, ha.flagE, ha.flagC, ha.ssDone, hsub] <;>
       (intro k' hk'; simp [hk'])
 
-theorem inv_pTerm {cfg : Cfg} {s : St} {g : Nat} (t : Ev) (ht : t.isTerminal = true) (hi : Inv s)
-    (hsub : s.subject = some g) (ha : GenActive s g) :
-    Inv (pTerm cfg g t s) ∧ (pTerm cfg g t s).ngens = s.ngens ∧ (pTerm cfg g t s).nsubs = s.nsubs ∧
-      ((pTerm cfg g t s).gens g).upTorn = true ∧ (∀ k, k ≠ g → (pTerm cfg g t s).gens k = s.gens k) ∧
-      (pTerm cfg g t s).subject = (if cfg.flags.resetsOn t then none else some g) := by
+theorem inv_pTerm {cfg : Cfg} {P : Pend} {s : St} {g : Nat} (t : Ev) (ht : t.isTerminal = true) (hi : Inv P s)
+    (hsub : s.subject = some g) (ha : GenActive P s g) :
+    Inv (P.afterTerm g) (pTerm cfg g t s) ∧ (pTerm cfg g t s).ngens = s.ngens ∧ (pTerm cfg g t s).nsubs = s.nsubs ∧
+      (P.ug ≠ some g → ((pTerm cfg g t s).gens g).upTorn = true) ∧ (∀ k, k ≠ g → (pTerm cfg g t s).gens k = s.gens k) ∧
+      (pTerm cfg g t s).subject = (if cfg.flags.resetsOn t then none else some g) ∧
+      openSubs (pTerm cfg g t s) = [] := by
   have hc : t.code ≠ 0 := by cases t <;> simp [Ev.code, Ev.isTerminal] at *
   have hterm : Status.ofTerminal t ≠ Status.open := by cases t <;> simp [Status.ofTerminal, Ev.isTerminal] at *
   have hss : s.sourceSubscription = some g := by rw [hi.shared]; exact hsub
   have hg := (hi.cur g hsub).1
+  have hssf : (s.gens g).ssFins = [g] ∨ (s.gens g).ssFins = [] := by
+    by_cases he : P.ug = some g
+    · exact Or.inr (ha.unf he).2.1
+    · exact Or.inl (ha.fin he).2
   have hr : reset g (s.modGen g fun x => { x with pStatus := t.code }) = termResetState g (s.modGen g fun x => { x with pStatus := t.code }) :=
-    reset_terminated (by simp [hc]) (by simp [ha.ssFins]) (by simp [ha.ssDone]) hsub hss
+    reset_terminated (by simp [hc]) (by simpa using hssf) (by simp [ha.ssDone]) hsub hss
   have h2 := pDecide_cases cfg.flags g t ht (s.modGen g fun x => { x with pStatus := t.code })
   rw [hr] at h2
   have hp : pTerm cfg g t s = pSubnUnsub g (subjTerm cfg.flags g t (pDecide cfg.flags g t (s.modGen g fun x => { x with pStatus := t.code }))) := by
@@ -486,42 +652,117 @@ theorem inv_pTerm {cfg : Cfg} {s : St} {g : Nat} (t : Ev) (ht : t.isTerminal = t
       exact mem_openSubs.mpr ⟨by rw [← f4.nsubs]; exact hk, hk3⟩
     · exact f4.mono k hk3
   have hno4 : openSubs s4 = [] := openSubs_eq_nil.mpr hallclosed
+  -- the pending creator (if any) is closed now
+  have hpend4 : pendClosed (P.xa g) s4 = (if P.ug = some g then 1 else 0) := by
+    unfold Pend.xa
+    split
+    next he =>
+      obtain ⟨_, _, A, hA, _, _⟩ := ha.unf he
+      have hltA := (h4.openedU A (by simp [Pend.xa, he, hA])).1
+      simp [pendClosed, hA, hallclosed A hltA]
+    next => rfl
+  have hcnew : (P.c + (if P.ug = some g then 1 else 0) : Nat) = (P.afterTerm g).c := by
+    unfold Pend.afterTerm
+    split
+    next he =>
+      obtain ⟨_, _, A, hA, _, _⟩ := ha.unf he
+      simp [Pend.c, Pend.drop, he, hA]
+    next => simp
+  have hug' : (P.afterTerm g).ug = P.ug := by unfold Pend.afterTerm; split <;> rfl
+  have hua' : (P.afterTerm g).ua = none := by
+    unfold Pend.afterTerm
+    split
+    · rfl
+    next he =>
+      cases h : P.ua with
+      | none => rfl
+      | some A => exact absurd ((hi.uab A h).1.trans hsub) he
   -- the final state
   have e6 : pSubnUnsub g (subjClear g s4) =
-      (subjClear g s4).modGen g fun x => { x with pDone := true, pFin := false, upTorn := true } := by
-    simp [pSubnUnsub, subjClear, f4.pDone, hpd, f4.pFin, hpf]
+      (subjClear g s4).modGen g fun x => { x with pDone := true, pFin := false, upTorn := (s.gens g).pFin || x.upTorn } := by
+    have hd4 : ((subjClear g s4).gens g).pDone = false := by simp [subjClear, f4.pDone, hpd]
+    have hf4 : ((subjClear g s4).gens g).pFin = (s.gens g).pFin := by simp [subjClear, f4.pFin, hpf]
+    unfold pSubnUnsub
+    rw [if_neg (by simp [hd4])]
+    cases hpf0 : (s.gens g).pFin
+    · rw [if_neg (by simp [hf4, hpf0])]
+      simp only [St.modGen]
+      congr 1
+      funext k
+      by_cases hk : k = g
+      · subst hk
+        have hpk : ((subjClear k s4).gens k).pFin = false := by rw [hf4, hpf0]
+        simp only [if_true, Bool.false_or]
+        cases hgk : (subjClear k s4).gens k
+        simp [hgk] at hpk
+        simp [hpk]
+      · simp [hk]
+    · rw [if_pos (by simp [hf4, hpf0])]
+      simp
   rw [e6]
-  have hos6 : openSubs ((subjClear g s4).modGen g fun x => { x with pDone := true, pFin := false, upTorn := true }) = openSubs s4 :=
+  have hos6 : openSubs ((subjClear g s4).modGen g fun x => { x with pDone := true, pFin := false, upTorn := (s.gens g).pFin || x.upTorn }) = openSubs s4 :=
     openSubs_congr rfl (fun i _ => Iff.rfl)
-  refine ⟨?_, by simp [subjClear, f4.ngens, hng], by simp [subjClear, f4.nsubs, hns], by simp [subjClear],
+  have hut6 : (((subjClear g s4).modGen g fun x => { x with pDone := true, pFin := false, upTorn := (s.gens g).pFin || x.upTorn }).gens g).upTorn = (s.gens g).pFin := by
+    simp [subjClear, f4.upTorn, hut]
+  refine ⟨?_, by simp [subjClear, f4.ngens, hng], by simp [subjClear, f4.nsubs, hns],
+    fun hne => by rw [hut6]; exact (ha.fin hne).1,
     fun k hkg => by simp [subjClear, hkg, f4.gens k hkg, hgens k hkg],
-    by simp [subjClear, f4.subject, hsubj3, hsubj2]⟩
+    by simp [subjClear, f4.subject, hsubj3, hsubj2], by rw [hos6]; exact hno4⟩
   constructor
-  · simp [subjClear]; exact h4.shared
-  · intro i hlt hs
+  case shared => simp [subjClear]; exact h4.shared
+  case closed =>
+    intro i hlt hs
     exact h4.closed i hlt hs
-  · intro k hk hne
+  case stale =>
+    intro k hk hne hu
+    rw [hug'] at hu
     by_cases hkg : k = g
     · subst hkg
       rcases hmode with ⟨hsn, _, _, hsd, hsf⟩ | ⟨hsg, _⟩
-      · constructor <;> simp [subjClear, f4.pStatus, hps, hc, f4.upSub, hup, f4.ssFins, hsf, f4.ssDone, hsd]
+      · constructor <;> simp [subjClear, f4.pStatus, hps, hc, f4.upSub, hup, f4.ssFins, hsf, f4.ssDone, hsd, f4.upTorn, hut, (ha.fin hu).1]
       · exfalso
         apply hne
         simp [subjClear, f4.subject, hsg]
-    · have : ((subjClear g s4).modGen g fun x => { x with pDone := true, pFin := false, upTorn := true }).gens k = s.gens k := by
+    · have : ((subjClear g s4).modGen g fun x => { x with pDone := true, pFin := false, upTorn := (s.gens g).pFin || x.upTorn }).gens k = s.gens k := by
         simp [subjClear, hkg, f4.gens k hkg, hgens k hkg]
       rw [this]
       apply hi.stale k
       · simp [subjClear, f4.ngens, hng] at hk; exact hk
       · rw [hsub]; intro h; exact hkg (Option.some.inj h).symm
-  · rw [hos6]; simp [subjClear]; exact h4.count
-  · intro hn
+      · exact hu
+  case ended =>
+    intro k hk hne hu
+    rw [hug'] at hu
+    refine ⟨?_, hua'⟩
+    by_cases hkg : k = g
+    · subst hkg
+      rcases hmode with ⟨hsn, _, _, hsd, hsf⟩ | ⟨hsg, _⟩
+      · constructor <;> simp [subjClear, f4.pStatus, hps, hc, f4.upSub, hup, f4.ssFins, hsf, f4.ssDone, hsd, f4.upTorn, hut, (ha.unf hu).1]
+      · exfalso
+        apply hne
+        simp [subjClear, f4.subject, hsg]
+    · have : ((subjClear g s4).modGen g fun x => { x with pDone := true, pFin := false, upTorn := (s.gens g).pFin || x.upTorn }).gens k = s.gens k := by
+        simp [subjClear, hkg, f4.gens k hkg, hgens k hkg]
+      rw [this]
+      refine (hi.ended k ?_ ?_ hu).1
+      · simp [subjClear, f4.ngens, hng] at hk; exact hk
+      · rw [hsub]; intro h; exact hkg (Option.some.inj h).symm
+  case count =>
+    rw [hos6, ← hcnew]
+    have := h4.count
+    rw [hpend4] at this
+    simp [subjClear]
+    rw [this]
+    omega
+  case idle =>
+    intro hn
     simp [subjClear, f4.subject] at hn
     rcases hmode with ⟨_, hfe, hfc, _, _⟩ | ⟨hsg, _⟩
     · refine ⟨by simp [subjClear, f4.flagE, hfe], by simp [subjClear, f4.flagC, hfc], ?_⟩
       rw [hos6]; exact hno4
     · rw [hsg] at hn; cases hn
-  · intro g' hg'
+  case cur =>
+    intro g' hg'
     simp [subjClear, f4.subject] at hg'
     rcases hmode with ⟨hsn, _⟩ | ⟨hsg, hfl, hsd, hsf⟩
     · rw [hsn] at hg'; cases hg'
@@ -532,36 +773,127 @@ theorem inv_pTerm {cfg : Cfg} {s : St} {g : Nat} (t : Ev) (ht : t.isTerminal = t
       constructor
       case noOpen => rw [hos6]; exact hno4
       case closed => simp [subjClear, f4.gStatus, hst3]; exact hterm
-      all_goals simp [subjClear, f4.pStatus, hps, hc, f4.upSub, hup, f4.ssFins, hsf, f4.ssDone, hsd, f4.flagE, f4.flagC, hfl]
+      case fin =>
+        intro hne
+        rw [hug'] at hne
+        simp [subjClear, f4.upTorn, hut, f4.ssFins, hsf, (ha.fin hne).1, (ha.fin hne).2]
+      case unf =>
+        intro he
+        rw [hug'] at he
+        simp [subjClear, f4.upTorn, hut, f4.ssFins, hsf, (ha.unf he).1, (ha.unf he).2.1, hua']
+      all_goals simp [subjClear, f4.pStatus, hps, hc, f4.upSub, hup, f4.ssDone, hsd, f4.flagE, f4.flagC, hfl]
+  case ugb =>
+    intro k hk
+    rw [hug'] at hk
+    simp [subjClear, f4.ngens, hng]
+    exact hi.ugb k hk
+  case uab =>
+    intro A hA
+    rw [hua'] at hA; cases hA
 
 /-! ### the probe pushes a notification -/
 
-theorem upLive_iff {s : St} (hi : Inv s) (k : Nat) (hk : k < s.ngens) :
-    s.upLive k = true ↔ (s.subject = some k ∧ GenActive s k) := by
-  constructor
-  · intro hl
-    by_cases hsub : s.subject = some k
-    · rcases (hi.cur k hsub).2 with ha | hl'
-      · exact ⟨hsub, ha⟩
-      · simp [St.upLive, hl'.upTorn] at hl
-    · have := hi.stale k hk hsub
-      simp [St.upLive, this.upTorn] at hl
-  · intro ⟨_, ha⟩
-    simp [St.upLive, ha.upSub, ha.upTorn]
-
-theorem inv_pEmit {cfg : Cfg} {s : St} {g : Nat} (x : Ev) (hi : Inv s) (hsub : s.subject = some g) (ha : GenActive s g) :
-    Inv (pEmit cfg g x s) ∧ (pEmit cfg g x s).ngens = s.ngens ∧ (pEmit cfg g x s).nsubs = s.nsubs ∧
+/-- a notification reaches the proxy of the live current generation -/
+theorem inv_pEmit {cfg : Cfg} {P : Pend} {s : St} {g : Nat} (x : Ev) (hi : Inv P s) (hsub : s.subject = some g) (ha : GenActive P s g) :
+    ((Inv P (pEmit cfg g x s) ∧ (openSubs s = [] → openSubs (pEmit cfg g x s) = [])) ∨
+     (Inv (P.afterTerm g) (pEmit cfg g x s) ∧ openSubs (pEmit cfg g x s) = [])) ∧
+      (pEmit cfg g x s).ngens = s.ngens ∧ (pEmit cfg g x s).nsubs = s.nsubs ∧
       (∀ k, k ≠ g → (pEmit cfg g x s).upLive k = s.upLive k) := by
   cases x with
   | next v =>
     have hs := pNext_sim cfg g v s
-    exact ⟨hi.sim hs, hs.ngens, hs.nsubs, fun k _ => by simp [St.upLive, pEmit, hs.upSub, hs.upTorn]⟩
+    exact ⟨Or.inl ⟨hi.sim hs, fun h => by show openSubs (pNext cfg g v s) = []; rw [hs.openSubs]; exact h⟩, hs.ngens, hs.nsubs,
+      fun k _ => by simp [St.upLive, pEmit, hs.upSub, hs.upTorn]⟩
   | error e =>
-    obtain ⟨h1, h2, h3, _, h5, _⟩ := inv_pTerm (cfg := cfg) (.error e) rfl hi hsub ha
-    exact ⟨h1, h2, h3, fun k hk => by simp [St.upLive, pEmit, h5 k hk]⟩
+    obtain ⟨h1, h2, h3, _, h5, _, h7⟩ := inv_pTerm (cfg := cfg) (.error e) rfl hi hsub ha
+    exact ⟨Or.inr ⟨h1, h7⟩, h2, h3, fun k hk => by simp [St.upLive, pEmit, h5 k hk]⟩
   | complete =>
-    obtain ⟨h1, h2, h3, _, h5, _⟩ := inv_pTerm (cfg := cfg) .complete rfl hi hsub ha
-    exact ⟨h1, h2, h3, fun k hk => by simp [St.upLive, pEmit, h5 k hk]⟩
+    obtain ⟨h1, h2, h3, _, h5, _, h7⟩ := inv_pTerm (cfg := cfg) .complete rfl hi hsub ha
+    exact ⟨Or.inr ⟨h1, h7⟩, h2, h3, fun k hk => by simp [St.upLive, pEmit, h5 k hk]⟩
+
+/-- a closed proxy only feeds the drop hook -/
+theorem pEmit_closed_sim (cfg : Cfg) (g : Nat) (x : Ev) {u : St} (h1 : (u.gens g).pStatus ≠ 0) (h2 : (u.gens g).pDone = true) :
+    Sim u (pEmit cfg g x u) := by
+  cases x <;> simp [pEmit, pNext, pTerm, h1, pSubnUnsub, h2] <;> exact sim_drop _ u
+
+/-- which upstream subscriptions the probe still pushes to: the live current generation, and the
+    pending generation (its teardown is not even registered) -/
+theorem upLive_cases {P : Pend} {s : St} (hi : Inv P s) (k : Nat) (hk : k < s.ngens) (hl : s.upLive k = true) :
+    (s.subject = some k ∧ GenActive P s k) ∨
+    (P.ug = some k ∧ (s.gens k).pStatus ≠ 0 ∧ (s.gens k).pDone = true) := by
+  by_cases hsub : s.subject = some k
+  · rcases (hi.cur k hsub).2 with ha | hl'
+    · exact Or.inl ⟨hsub, ha⟩
+    · by_cases he : P.ug = some k
+      · exact Or.inr ⟨he, hl'.pStatus, hl'.pDone⟩
+      · simp [St.upLive, (hl'.fin he).1] at hl
+  · by_cases he : P.ug = some k
+    · have := (hi.ended k hk hsub he).1
+      exact Or.inr ⟨he, this.pStatus, this.pDone⟩
+    · have := hi.stale k hk hsub he
+      simp [St.upLive, this.upTorn] at hl
+
+/-- the invariant survives a push; a terminal on the pending generation closes its creator (and
+    everybody else) -/
+theorem inv_push (cfg : Cfg) (x : Ev) {P : Pend} {s : St} (hi : Inv P s) :
+    Inv P (push cfg x s) ∨ (Inv P.drop (push cfg x s) ∧ openSubs (push cfg x s) = []) := by
+  unfold push
+  suffices h : ∀ (l : List Nat) (u : St), (Inv P u ∨ (Inv P.drop u ∧ openSubs u = [])) → u.ngens = s.ngens → (∀ k, k ∈ l → k < s.ngens) →
+      (Inv P (l.foldl (fun s g => if s.upLive g then pEmit cfg g x s else s) u) ∨
+       (Inv P.drop (l.foldl (fun s g => if s.upLive g then pEmit cfg g x s else s) u) ∧
+        openSubs (l.foldl (fun s g => if s.upLive g then pEmit cfg g x s else s) u) = [])) from
+    h _ s (Or.inl hi) rfl (fun k hk => List.mem_range.mp hk)
+  intro l
+  induction l with
+  | nil => intro u hu _ _; exact hu
+  | cons a l ih =>
+    intro u hu hn hl
+    rw [List.foldl_cons]
+    have ha : a < u.ngens := by rw [hn]; exact hl a List.mem_cons_self
+    have hrest : ∀ k, k ∈ l → k < s.ngens := fun k hk => hl k (List.mem_cons_of_mem _ hk)
+    by_cases hlive : u.upLive a = true
+    · rw [if_pos hlive]
+      -- one step from a state satisfying `Inv Q`, Q ∈ {P, P.drop}
+      have step : ∀ Q : Pend, Inv Q u →
+          ((Inv Q (pEmit cfg a x u) ∧ (openSubs u = [] → openSubs (pEmit cfg a x u) = [])) ∨
+           (Inv Q.drop (pEmit cfg a x u) ∧ openSubs (pEmit cfg a x u) = [])) ∧ (pEmit cfg a x u).ngens = u.ngens := by
+        intro Q hq
+        rcases upLive_cases hq a ha hlive with ⟨hsub, hact⟩ | ⟨_, h1, h2⟩
+        · obtain ⟨h, hng, _, _⟩ := inv_pEmit (cfg := cfg) x hq hsub hact
+          refine ⟨?_, hng⟩
+          rcases h with h | ⟨h, hno⟩
+          · exact Or.inl h
+          · unfold Pend.afterTerm at h
+            split at h
+            · exact Or.inr ⟨h, hno⟩
+            · exact Or.inl ⟨h, fun _ => hno⟩
+        · have hsim := pEmit_closed_sim cfg a x h1 h2
+          exact ⟨Or.inl ⟨hq.sim hsim, fun h => by rw [hsim.openSubs]; exact h⟩, hsim.ngens⟩
+      rcases hu with hu | ⟨hu, hno⟩
+      · obtain ⟨h, hng⟩ := step P hu
+        refine ih _ ?_ (by rw [hng, hn]) hrest
+        rcases h with ⟨h, _⟩ | h
+        · exact Or.inl h
+        · exact Or.inr h
+      · obtain ⟨h, hng⟩ := step P.drop hu
+        refine ih _ ?_ (by rw [hng, hn]) hrest
+        rcases h with ⟨h, hk⟩ | ⟨h, hk⟩
+        · exact Or.inr ⟨h, hk hno⟩
+        · exact Or.inr ⟨by simpa [Pend.drop] using h, hk⟩
+    · rw [if_neg hlive]
+      exact ih _ hu hn hrest
+
+/-! ### with nothing pending: the probe reaches exactly the live current generation -/
+
+theorem upLive_iff {s : St} (hi : Inv Pend.idle s) (k : Nat) (hk : k < s.ngens) :
+    s.upLive k = true ↔ (s.subject = some k ∧ GenActive Pend.idle s k) := by
+  constructor
+  · intro hl
+    rcases upLive_cases hi k hk hl with h | ⟨h, _⟩
+    · exact h
+    · simp at h
+  · intro ⟨_, ha⟩
+    simp [St.upLive, ha.upSub, ha.upTorn]
 
 theorem push_fold_none (cfg : Cfg) (x : Ev) (s : St) (n : Nat) (h : ∀ k, k < n → s.upLive k = false) :
     (List.range n).foldl (fun s g => if s.upLive g then pEmit cfg g x s else s) s = s := by
@@ -587,10 +919,10 @@ theorem push_fold_one (cfg : Cfg) (x : Ev) (s : St) (g n : Nat) (hg : g < n) (hl
       simp [h' n (Nat.lt_succ_self n) (fun h => hgn h.symm)]
 
 /-- the probe reaches at most the proxy of the live current generation -/
-theorem push_eq (cfg : Cfg) (x : Ev) {s : St} (hi : Inv s) :
-    (∃ g, s.subject = some g ∧ GenActive s g ∧ push cfg x s = pEmit cfg g x s) ∨
+theorem push_eq (cfg : Cfg) (x : Ev) {s : St} (hi : Inv Pend.idle s) :
+    (∃ g, s.subject = some g ∧ GenActive Pend.idle s g ∧ push cfg x s = pEmit cfg g x s) ∨
     ((∀ k, k < s.ngens → s.upLive k = false) ∧ push cfg x s = s) := by
-  by_cases hex : ∃ g, s.subject = some g ∧ GenActive s g
+  by_cases hex : ∃ g, s.subject = some g ∧ GenActive Pend.idle s g
   · obtain ⟨g, hsub, ha⟩ := hex
     refine Or.inl ⟨g, hsub, ha, ?_⟩
     have hg := (hi.cur g hsub).1
@@ -615,11 +947,5 @@ theorem push_eq (cfg : Cfg) (x : Ev) {s : St} (hi : Inv s) :
       cases hl : s.upLive k with
       | false => rfl
       | true => exact absurd ⟨k, (upLive_iff hi k hk).mp hl⟩ hex
-
-theorem inv_push (cfg : Cfg) (x : Ev) {s : St} (hi : Inv s) : Inv (push cfg x s) := by
-  rcases push_eq cfg x hi with ⟨g, hsub, ha, he⟩ | ⟨_, he⟩
-  · rw [he]; exact (inv_pEmit x hi hsub ha).1
-  · rw [he]; exact hi
-
 
 end Ro.Share
